@@ -11,6 +11,7 @@ Registration half: `Server/Registry.lean` (see second part) and the end-to-end `
 import SeliumModel.Lemmas.PubSubHealthy
 import SeliumModel.Lemmas.ReqRepMore
 import SeliumModel.Server.Registry
+import SeliumModel.Lemmas.ReqRepCause
 
 namespace Selium.Route
 open Selium.Sink
@@ -50,6 +51,14 @@ def exOdd : List REvent :=
 
 example : (rrExec exOdd).handed = [(0, .msg (some [("cid", "0")]) 7)] ∧
     (rrExec exOdd).sinks.map (·.got) = [[.msg none 8]] := by decide +kernel
+
+/-- "never accepted and then silently abandoned", router half: a requestor or replier socket the router has adopted is
+    let go of only for a cause of its own — the requestor's sink failed; the replier's stream ended, its sink failed, or
+    it was told that another replier is bound. What any other peer does costs nobody its place. -/
+theorem c11_adopted_socket_not_abandoned (history : List REvent) :
+    (∀ k, REv.c (.dropped k) ∈ (rrExec history).trace → ∃ e ∈ (rrExec history).trace, causeOfC k e) ∧
+    (∀ n k, REv.v n (.dropped k) ∈ (rrExec history).trace → ∃ e ∈ (rrExec history).trace, causeOf n e) :=
+  ⟨rrExec_justifiedC history, rrExec_justified history⟩
 
 end Selium.Route
 
@@ -183,6 +192,7 @@ end Selium.Server
 #print axioms Selium.Route.c11_unexpected_request_frame_skipped
 #print axioms Selium.Route.c11_unexpected_reply_frame_discarded
 #print axioms Selium.Route.c11_oversize_after_tag
+#print axioms Selium.Route.c11_adopted_socket_not_abandoned
 #print axioms Selium.Server.checks_pattern
 #print axioms Selium.Server.c11_ok_means_served
 #print axioms Selium.Server.c11_refusal_has_code
